@@ -8,7 +8,27 @@ TECH = 'contract-based deductive verification: contracts woven into mechanically
 NOTE = ('Trusted: Verus/Z3, the weaver (rewrites listed per run in the evidence), the std::io::Read/Write protocol models and Vec/raw-pointer shims in prelude/ '
         '(each external_body/assume_specification is scanned and listed in the evidence), 64-bit usize, streams < 2^60 bytes. ')
 
+SCOPE = (' Functions under contract for this property are listed per run in the evidence (coverage.functions_under_contract); '
+         'parser-level coverage: DIMACS CNF parser and all its tokens, ASCII and binary AIGER section readers, tokens and symbol tables; '
+         'WCNF/GCNF/solver-log/BTOR2 parsers and the whole-file `parse` drivers of AIGER are not under contract yet and are not covered by this claim.')
+
 CLAIMED = {
+    'C01': dict(cat='proof', ref='6/C01', text='Every reader, scanner, token and parser function under contract has a postcondition that mentions only the stream (ghost prophecy `full`, `fails`) and the cursor/line bookkeeping, never the read schedule; the source model admits every partition into reads, Interrupted results and fault positions, so the verified results are functions of the bytes alone. Fast paths (8-byte kernel) are proved equal to the byte-wise paths (Verus + Kani for all 2^64 words). mark is part of the view and proved stable across refills.' + SCOPE,
+                tech=TECH + '; Kani/CBMC complete harness for the 8-byte kernel', note=NOTE + 'Composition of schedule-free functions is schedule-free (meta-argument).'),
+    'C04': dict(cat='proof', ref='6/C04', text='Reader: an error returned by the source is parked and stays parked until check_io_error (pending_ok is preserved by every operation). LineReader::give_up*: a parked I/O error wins over any syntax error. eof tokens succeed only at the end of a stream whose failure is not pending (=> the stream does not fail). Every error value of the verified tokens/parsers satisfies `located`/`reported`: an I/O error only for a failing source, no syntax error once the failure was observed. End-of-input acceptors (CNF next_clause clean end, AIGER comment and symbol/line content) are proved to accept only if the source does not fail.' + SCOPE,
+                tech=TECH, note=NOTE),
+    'C05': dict(cat='proof', ref='6/C05', text='For every function under contract Verus discharges: no arithmetic overflow/underflow, every index/slice in bounds, every unwrap on Some/Ok, every debug_assert, every callee precondition (advance within the scanned offset, give_up_at on the current line), termination of every loop (decreases). Stack depth, heap size and wall time are not expressible; allocation from declared counts (AIGER parse) is not under contract yet.' + SCOPE,
+                tech=TECH, note=NOTE),
+    'C06': dict(cat='proof', ref='6/C06', text='Exact numbers: scanners (C13) carried through cnf uint/int/braced_uint, aiger uint (no leading zeros), binary_uint (7-bit groups) and delta_code (delta <= reference). Limits as postconditions: var_count <= MAX_DIMACS, header limits installed unless ignore_header, literals within +-limit and equal to the scanned value through the lossless from_dimacs cast, clause_count/clause_limit gate further clauses and the clean end, group limit; AIGER header M <= (MAX_CODE-1)/2 and I+L+A <= M, literals <= 2M+1 with defined literals even and non-zero, section readers yield exactly the declared count, symbol indices below the count of their own section.' + SCOPE,
+                tech=TECH, note=NOTE),
+    'C07': dict(cat='proof', ref='6/C07', text='The layout freedom is proved as token-level facts: end-of-word = space/tab/CR/LF/end; tokens eat trailing blanks; newline = LF or CRLF plus blanks; comment = through the next LF plus blanks; non_terminating_linebreaks = one newline then any sequence of comments/newlines (spec fn skip_cn); leading zeros and -0 through dec/signed_val; the statement loop of next_clause skips comments and blank lines. The meta-theorem "two renderings of one token sequence parse equal" is a relational statement that is NOT proved (see DESIGN 6/C07); solver log not under contract yet.' + SCOPE,
+                tech=TECH, note=NOTE),
+    'C08': dict(cat='proof', ref='6/C08', text='LineReader::inv(): line_start <= position, no newline between them, line == 1 + number of LFs before line_start (exact for text content; bounds only once binary AIGER content was consumed). Every error of the verified tokens/parsers is `located` (line of the bookkeeping, 1 <= column <= position - line_start + 1) or `reported` at the exact offset (cursor for unexpected tokens, mark for range errors; tokens that fall through leave cursor, line bookkeeping and mark untouched). line_at_offset has the weakest precondition that keeps the accounting exact, incl. the manual multi-line accounting of AIGER comments.' + SCOPE,
+                tech=TECH, note=NOTE),
+    'C09': dict(cat='proof', ref='6/C09', text='Reader level (all schedules, all histories): request_more performs exactly one successful read (ghost ok_reads), none when complete; requests satisfied by buffered data leave the source untouched; the source is never called after it ended (precondition !ended of the single read site). Look-ahead bounds over the ghost read history (last_from) for the C16 helpers, the scanners (fast path touches only buffered bytes) and the interactive end-of-line tokens (nothing beyond the newline itself). Composition of the look-ahead bounds along a whole clause/line is not proved yet.' + SCOPE,
+                tech=TECH, note=NOTE),
+    'C10': dict(cat='proof', ref='6/C10', text='Reader buffer: |buf| <= 4*peak_chunk + peak_valid (ghost high-water marks, woven ghost field) is part of wf() and preserved by every operation; valid_len after a request is bounded by max(buffered, look-ahead + chunk); the bound does not mention the position. Parser side (one literal buffer per clause, cleared first) and allocator behaviour (capacity) are assumptions about Vec and are not proved.',
+                tech=TECH, note=NOTE),
     'C02': dict(cat='proof', ref='6/C02', text='Representation invariant wf() and the abstract view (stream, position, mark, buffered, complete, parked) are required and re-established by every DeferredReader operation, for an arbitrary read schedule admitted by the Read protocol model; each operation has the strongest postcondition over the whole view. Unbounded: all inputs, histories and schedules. from_read/from_buf_reader (generic constructors over impl Read) are outside the verified set.',
                 tech=TECH, note=NOTE),
     'C11': dict(cat='proof', ref='6/C11', text='DeferredWriter::inv() (buffer = suffix of the ghost written stream; accepted bytes are a strictly increasing index selection of it; exact when no sink failure) is preserved by every method incl. the Write impl and drop; error parking, single report and sink quiescence are postconditions; integer writing appends the canonical text (itoap assumed).',
